@@ -317,6 +317,13 @@ func Generate(t *tape.Tape, feat Features, maxServices int) *World {
 			w.Mutation = append(w.Mutation, f)
 		}
 	}
+	if feat.SharedRootName && feat.Mutations && len(w.Query) > 0 {
+		// the same root field (name, arguments, type) under Query and Mutation
+		src := w.Query[t.Choose(len(w.Query))]
+		cp := *src
+		cp.Owner = t.Choose(w.K)
+		w.Mutation = append(w.Mutation, &cp)
+	}
 	if feat.Subscriptions {
 		ns := 1 + t.Choose(2)
 		for j := 0; j < ns; j++ {
